@@ -216,7 +216,7 @@ package nbhttp
 // =====================================================================================================================
 
 // what a Processor callback leaves alone: the parser's private fields and every pooled buffer that existed before the call
-//@ pred PKeep(p *Parser) := p.bytesCached == old(p.bytesCached) && p.state == old(p.state) && p.Processor == old(p.Processor) && p.Engine == old(p.Engine) && p.chunked == old(p.chunked) && p.contentLength == old(p.contentLength) && p.chunkSize == old(p.chunkSize) && p.header == old(p.header) && p.trailer == old(p.trailer) && p.isClient == old(p.isClient) && p.headerExists == old(p.headerExists) && p.proto == old(p.proto) && p.status == old(p.status) && p.statusCode == old(p.statusCode) && p.headerKey == old(p.headerKey) && p.headerValue == old(p.headerValue) && (forall q int :: q <= old(top) ==> liveP[q] == old(liveP[q]) && box(q, "[]byte") == old(box(q, "[]byte")) && bytes_row(q) == old(bytes_row(q)))
+//@ pred PKeep(p *Parser) := p.bytesCached == old(p.bytesCached) && p.state == old(p.state) && p.Processor == old(p.Processor) && p.Engine == old(p.Engine) && p.chunked == old(p.chunked) && p.contentLength == old(p.contentLength) && p.chunkSize == old(p.chunkSize) && p.header == old(p.header) && p.trailer == old(p.trailer) && p.isClient == old(p.isClient) && p.headerExists == old(p.headerExists) && p.proto == old(p.proto) && p.status == old(p.status) && p.statusCode == old(p.statusCode) && p.headerKey == old(p.headerKey) && p.headerValue == old(p.headerValue) && p.Engine.ReadLimit == old(p.Engine.ReadLimit) && (forall q int :: q <= old(top) ==> liveP[q] == old(liveP[q]) && box(q, "[]byte") == old(box(q, "[]byte")) && bytes_row(q) == old(bytes_row(q)))
 
 //@ iface nbhttp.Processor.OnMethod
 //@   ensures PKeep(parser)
@@ -256,8 +256,13 @@ package nbhttp
 //@   ensures forall q int :: q <= old(top) ==> liveP[q] == old(liveP[q])
 //@   assigns everything
 
-//@ pred ParserInv(p *Parser) := p.Processor != nil && p.Engine != nil && (p.bytesCached != nil ==> liveP[p.bytesCached] && len(*p.bytesCached) > 0) && (p.state == stateBodyContentLength ==> p.contentLength > 0) && (p.state == stateBodyChunkData ==> p.chunkSize > 0)
+//@ ghost local Parser.gCache : Int
+//@ ghost local Parser.gUp : Bool
+//@ ghost local Parser.gRow : (Array Int Int)
+//@ pred ParseCache(p *Parser, offset int, n int, cache0 *[]byte, n0 int, rl0 int) := (cache0 != nil ==> p.bytesCached == cache0 || !liveP[cache0]) && (offset == 0 ==> p.bytesCached == nil && n == n0) && (offset > 0 ==> p.bytesCached != nil && len(*p.bytesCached) == n && (rl0 > 0 ==> n <= rl0)) && p.Engine.ReadLimit == rl0
+//@ pred ParserInv(p *Parser) := p.Processor != nil && p.Engine != nil && (p.state != stateClose && p.bytesCached != nil ==> liveP[p.bytesCached] && p.bytesCached <= top && len(*p.bytesCached) > 0) && (p.state == stateBodyContentLength ==> p.contentLength > 0) && (p.state == stateBodyChunkData ==> p.chunkSize > 0)
 
+//@ pred ParserRest(p *Parser) := (p.state == stateBodyContentLength ==> buflen(p.bytesCached) < p.contentLength) && (p.state == stateBodyChunkData ==> buflen(p.bytesCached) < p.chunkSize)
 //@ func (*Parser).nextState
 //@   inline
 //@ func isAlpha
@@ -306,10 +311,93 @@ package nbhttp
 //@ func (*Parser).Parse
 //@   props C08 C11
 //@   safety index slice nil div assert panic make
-//@   requires ParserInv(p)
-//@   ensures own: p.bytesCached != nil ==> liveP[p.bytesCached]                                                         // prop C11
+//@   requires ParserInv(p) && ParserRest(p)
+//@   ensures rest: result == nil && !p.gUp ==> ParserRest(p)                                                            // prop C08
+//@   ensures own: p.state != stateClose && p.bytesCached != nil ==> liveP[p.bytesCached]                                // prop C11
+//@   ensures freed: old(p.bytesCached) != nil && p.bytesCached != old(p.bytesCached) ==> !liveP[old(p.bytesCached)]       // prop C11
+//@   note once the connection is upgraded the bytes go to the upgraded parser; the HTTP parser's invariant is stated for calls that stay HTTP
+//@   ensures inv1: result == nil && !p.gUp ==> p.Processor != nil && p.Engine != nil
+//@   ensures inv2: result == nil && p.bytesCached != nil ==> p.bytesCached <= top && len(*p.bytesCached) > 0
+//@   ensures inv3: result == nil && !p.gUp ==> (p.state == stateBodyContentLength ==> p.contentLength > 0) && (p.state == stateBodyChunkData ==> p.chunkSize > 0)
+//@   ensures cachelimit: result == nil && p.bytesCached != nil && old(p.Engine.ReadLimit) > 0 ==> len(*p.bytesCached) <= max(old(p.Engine.ReadLimit), old(len(data))) || (old(len(data)) == 0 && len(*p.bytesCached) == old(buflen(p.bytesCached)))   // prop C08
+//@   note segmentation independence, local half (C06): what is kept for the next call is exactly the tail of (old cache ++ data); nothing is dropped, duplicated or shifted
+//@   persite suffix0 suffix1a suffix1b
+//@   ensures suffixlen: result == nil && !p.gUp && p.bytesCached != nil ==> len(*p.bytesCached) <= old(buflen(p.bytesCached)) + old(len(data))   // prop C06
+//@   ensures suffix0: result == nil && !p.gUp && p.bytesCached != nil && old(p.bytesCached) == nil ==> (forall q int {mem(*p.bytesCached, q)} :: off(*p.bytesCached) <= q && q < off(*p.bytesCached) + len(*p.bytesCached) ==> mem(*p.bytesCached, q) == memold(data, old(off(data)) + old(len(data)) - len(*p.bytesCached) + q - off(*p.bytesCached)))   // prop C06
+//@   ensures suffix1a: result == nil && !p.gUp && p.bytesCached != nil && old(p.bytesCached) != nil && len(*p.bytesCached) == old(buflen(p.bytesCached)) + old(len(data)) ==> (forall q int {mem(*p.bytesCached, q)} :: off(*p.bytesCached) <= q && q < off(*p.bytesCached) + len(*p.bytesCached) ==> mem(*p.bytesCached, q) == ite(old(buflen(p.bytesCached)) + old(len(data)) - len(*p.bytesCached) + q - off(*p.bytesCached) < old(buflen(p.bytesCached)), memold(*p.bytesCached, old(off(*p.bytesCached)) + old(buflen(p.bytesCached)) + old(len(data)) - len(*p.bytesCached) + q - off(*p.bytesCached)), memold(data, old(off(data)) + old(len(data)) - len(*p.bytesCached) + q - off(*p.bytesCached))))   // prop C06
+//@   ensures suffix1b: result == nil && !p.gUp && p.bytesCached != nil && old(p.bytesCached) != nil && len(*p.bytesCached) < old(buflen(p.bytesCached)) + old(len(data)) ==> (forall q int {mem(*p.bytesCached, q)} :: off(*p.bytesCached) <= q && q < off(*p.bytesCached) + len(*p.bytesCached) ==> mem(*p.bytesCached, q) == ite(old(buflen(p.bytesCached)) + old(len(data)) - len(*p.bytesCached) + q - off(*p.bytesCached) < old(buflen(p.bytesCached)), memold(*p.bytesCached, old(off(*p.bytesCached)) + old(buflen(p.bytesCached)) + old(len(data)) - len(*p.bytesCached) + q - off(*p.bytesCached)), memold(data, old(off(data)) + old(len(data)) - len(*p.bytesCached) + q - off(*p.bytesCached))))   // prop C06
+//@   ensures closed: old(p.state) == stateClose ==> result == net.ErrClosed && p.bytesCached == old(p.bytesCached)       // prop C08
 //@   assigns everything
+//@   note the upgraded protocol's parser does not reach into the HTTP parser that feeds it
+//@   at entry ghost { p.gUp = false; p.gRow = bytes_row(base(data)) }
+//@   at call:Append#1 ghost { p.gRow = bytes_row(base(*result)) }
+//@   at before:Parse#1 ghost { p.gCache = p.bytesCached; p.gUp = true }
+//@   at call:Parse#1 assume upkeep: p.bytesCached == p.gCache
 //@   loop 1
-//@     invariant 0 <= start && start <= len(data) && 0 <= offset && offset <= len(data) && (start == 0 || p.ParserCloser != nil) && ParserInv(p)
+//@     invariant 0 <= start && start <= len(data) && 0 <= offset && offset <= len(data) && (start == 0 || p.ParserCloser != nil) && ParserInv(p) && p.state != stateClose
+//@     invariant bytes_row(base(data)) == p.gRow && (offset > 0 ==> base(*p.bytesCached) == base(data) && off(*p.bytesCached) == off(data))
+//@     invariant p.ParserCloser != nil || ((p.state == stateBodyContentLength ==> offset < p.contentLength) && (p.state == stateBodyChunkData ==> offset < p.chunkSize))
+//@     invariant ParseCache(p, offset, len(data), old(p.bytesCached), old(len(data)), old(p.Engine.ReadLimit))
 //@   loop 2
-//@     invariant 0 <= start && start <= i && i <= len(data) && ParserInv(p)
+//@     invariant 0 <= start && start <= i && i <= len(data) && ParserInv(p) && p.state != stateClose
+//@     invariant bytes_row(base(data)) == p.gRow && (offset > 0 ==> base(*p.bytesCached) == base(data) && off(*p.bytesCached) == off(data))
+//@     invariant (p.state == stateBodyContentLength ==> i - start < p.contentLength) && (p.state == stateBodyChunkData ==> i - start < p.chunkSize)
+//@     decreases len(data) - i
+//@     invariant ParseCache(p, offset, len(data), old(p.bytesCached), old(len(data)), old(p.Engine.ReadLimit))
+
+//@ fieldfunc nbhttp.Parser.onClose
+//@   note the close callback installed by the engine or the upgrader: leaves the parser's cache and pooled buffers alone
+//@   ensures p.state == old(p.state) && (forall q int :: q <= old(top) ==> liveP[q] == old(liveP[q]))
+//@   assigns everything
+
+// ---- CloseAndClean: closes once, gives the cache back once; a closed parser refuses further input (Parse/post#closed)
+//@ func (*Parser).CloseAndClean
+//@   props C08 C11
+//@   safety index slice nil div assert panic make
+//@   requires p.state != stateClose && p.bytesCached != nil ==> liveP[p.bytesCached]
+//@   ensures closed: p.state == stateClose                                                                              // prop C08
+//@   ensures once: old(p.state) == stateClose ==> (forall q int :: liveP[q] == old(liveP[q]))                           // prop C11
+//@   ensures freed: old(p.state) != stateClose && old(p.bytesCached) != nil && old(len(*p.bytesCached)) > 0 ==> !liveP[old(p.bytesCached)]   // prop C11
+//@   assigns everything
+
+// ---- blocking reader (IOModBlocking / IOModMixed): once Parse has returned an error nothing more is fed to the parser (C08);
+// the read buffer is given back exactly once (C11)
+//@ ghost local Conn.gPErr : Bool
+//@ func conn2Array
+//@   trusted
+//@   assigns allocates
+//@ func getReadBufferPool
+//@   trusted
+//@   ensures result != nil
+//@   assigns allocates
+//@ fieldfunc nbhttp.Engine._onClose
+//@   note the engine's close notification: does not touch pooled buffers that exist
+//@   ensures forall q int :: q <= old(top) ==> liveP[q] == old(liveP[q])
+//@   assigns everything
+//@ iface nbhttp.ParserCloser.CloseAndClean
+//@   note HTTP parser (contract above) or the upgraded protocol's
+//@   assigns everything
+//@ package net
+//@ iface net.Conn.Read
+//@   params b
+//@   ensures err == nil ==> 0 <= n && n <= len(b)
+//@   ensures forall q int :: liveP[q] == old(liveP[q])
+//@   assigns elems(b), allocates
+//@ package nbhttp
+//@ func (*Engine).readConnBlocking$1
+//@   trusted
+//@   note the deferred cleanup (buffer release, parser close, engine bookkeeping) is not verified here
+//@   assigns everything
+//@ func (*Engine).readConnBlocking
+//@   props C08
+//@   safety index slice
+//@   requires engine != nil && conn != nil && parser != nil && decrease != nil && engine.BlockingReadBufferSize >= 0
+//@   assigns everything
+//@   at entry ghost { conn.gPErr = false }
+//@   at call:Parse#1 ghost { conn.gPErr = (result != nil) }
+//@   at before:Parse#1 assert quiet: !conn.gPErr   // prop C08
+//@   note the HTTP parser's own invariant (Parse/post#own) is assumed where Parse was reached through the ParserCloser interface
+//@   at before:CloseAndClean#1 assume pinv1: arg_p.state != stateClose && arg_p.bytesCached != nil ==> liveP[arg_p.bytesCached]
+//@   at before:CloseAndClean#2 assume pinv2: arg_p.state != stateClose && arg_p.bytesCached != nil ==> liveP[arg_p.bytesCached]
+//@   loop 1
+//@     invariant !conn.gPErr && pbuf != nil && parserCloser != nil
